@@ -85,6 +85,28 @@ def base_pool():
         odl.ProductSpace(field=odl.RealNumbers()), odl.ProductSpace(r3, 0), odl.ProductSpace(r3, odl.rn(2)), odl.ProductSpace(odl.rn(2), r3),
         odl.ProductSpace(r3, 3), odl.ProductSpace(r3, 2, weighting=1.0), odl.ProductSpace(odl.uniform_discr(0, 1, 3), 2),
         odl.ProductSpace(r3, 2, inner=f), odl.ProductSpace(r3, 2, inner=f))
+    # near twins: one number of the defining data moved by one ulp / 1e-10 / 1e-6 (interior node, end node, limits,
+    # weights).  Nothing prescribes whether these are equal - but whatever == says, hash / != / transitivity must follow.
+    for eps in (np.spacing(0.5), 1e-10, 1e-6):
+        for n in (5, 11):
+            cv = np.linspace(0, 1, n)
+            P.append(('grids', odl.RectGrid(cv)))
+            for pos in (0, n // 2, n - 2, n - 1):
+                cvp = cv.copy()
+                cvp[pos] += eps
+                P.append(('grids', odl.RectGrid(cvp)))
+                P.append(('partitions', odl.RectPartition(odl.IntervalProd(-0.5, 1.5), odl.RectGrid(cvp))))
+                if n == 5:
+                    P.append(('discr', odl.uniform_discr_frompartition(odl.RectPartition(odl.IntervalProd(-0.5, 1.5), odl.RectGrid(cvp)))))
+        P.append(('grids', odl.RectGrid(np.linspace(0, 1, 5), np.linspace(0, 1, 4))))
+        P.append(('grids', odl.RectGrid(np.linspace(0, 1, 5), np.linspace(0, 1, 4) + np.array([0, eps, 0, 0]))))
+        P.append(('intervals', odl.IntervalProd([0, 0], [1, 1 + eps])))
+        P.append(('partitions', odl.RectPartition(odl.IntervalProd(-0.5 + eps, 1.5), odl.RectGrid(np.linspace(0, 1, 5)))))
+        P.append(('tensor', odl.rn(3, weighting=2.0 + eps)))
+        P.append(('tensor', odl.rn(3, weighting=w + np.array([0, eps, 0]))))
+        P.append(('tensor', odl.rn(3, exponent=2 + eps)))
+        P.append(('pspace', odl.ProductSpace(r3, 2, weighting=[1, 2 + eps])))
+        P.append(('discr', odl.uniform_discr(0, 1 + eps, 3)))
     return P
 
 
